@@ -8,10 +8,19 @@ namespace AggProp
 
 def exactFields : List String := ["name", "idx", "min", "max", "hist", "n"]
 
+/-- a standard deviation is the root of a difference of nearly equal quantities when the values (nearly) coincide:
+rounding in the sum of squares, of relative size ε, shows as an absolute error of about √ε times the magnitude of the
+data.  Two such values agree "up to rounding" when they differ by less than 10⁻⁶ of that magnitude. -/
+def sdClose (a b : Rec) (x y : String) : Bool :=
+  Wire.tolVal x y ||
+    (match Wire.parseF x, Wire.parseF y with
+     | some fx, some fy => (fx - fy).abs ≤ 1e-6 * (max (max (a.flt "max").abs (a.flt "min").abs) (max (b.flt "max").abs (b.flt "min").abs))
+     | _, _ => false)
+
 def sameUpToRounding (a b : Rec) : Option String :=
   if a.name != b.name then some s!"{a.name} vs {b.name}" else
   match (a.kv.zip b.kv).find? (fun (x, y) =>
-      !(x.1 == y.1 && (if exactFields.contains x.1 then x.2 == y.2 else Wire.tolVal x.2 y.2))) with
+      !(x.1 == y.1 && (if exactFields.contains x.1 then x.2 == y.2 else if x.1 == "sd" then sdClose a b x.2 y.2 else Wire.tolVal x.2 y.2))) with
   | some (x, y) => some s!"{a.name} {a.str "name"}[{a.str "idx"}].{x.1}: {x.2} vs {y.2}"
   | none => none
 
